@@ -403,3 +403,8 @@ PI_ = "parallel/__init__.py"
 V("c08-result-to-first-registration", "C08", "violation", "C08.R5", edits=[(PI_, "            self._result_reg_mapping[finished_jobs[0]].processResults(result)", "            next(iter(self._result_reg_mapping.values())).processResults(result)")])
 V("c08-wait-two-process-one", "C08", "violation", "C08.R5", edits=[(PI_, "ray.wait(self._unfinished_jobs)", "ray.wait(self._unfinished_jobs, num_returns=min(2, len(self._unfinished_jobs)))")])
 V("c08-mapping-keyed-by-submission", "C08", "violation", "C08.R5", edits=[(PI_, "        self._result_reg_mapping[remote_ref] = registration", "        self._result_reg_mapping[remote_ref] = self._result_reg_mapping.get(remote_ref, registration)\n        self._last = registration")])
+
+# ------------------------------------------------------------------------------------ C14 (R5)
+V("c14-umbra-test-sum", "C14", "violation", "C14.R5", edits=[(SU, "    if c < abs(b - a):\n        return 0.0", "    if c < abs(b + a):\n        return 0.0")])
+V("c14-sunward-test-reversed", "C14", "violation", "C14.R5", edits=[(SU, "    if norm(sun_eci_position) >= norm(sat_sun_vector):", "    if norm(sun_eci_position) <= norm(sat_sun_vector):")])
+V("c14-partial-area-sign", "C14", "violation", "C14.R5", edits=[(SU, "        return 1.0 - A / (PI * a**2)", "        return A / (PI * a**2)")])
